@@ -1,7 +1,7 @@
 use std::marker::PhantomData;
 
 use crate::ir::rq::{fold_table, CId, RelationalQuery, RqFold, TId, TableDecl};
-use crate::Result;
+use crate::{Error, Result};
 
 #[derive(Debug, Clone)]
 pub struct IdGenerator<T: From<usize>> {
@@ -14,8 +14,14 @@ impl<T: From<usize>> IdGenerator<T> {
         Self::default()
     }
 
-    fn skip(&mut self, id: usize) {
+    fn skip(&mut self, id: usize) -> Result<()> {
+        // ids come from the query (which may have been deserialized): leave
+        // room for the ids that will be generated after it
+        if id > usize::MAX / 2 {
+            return Err(Error::new_simple(format!("id {id} is too large")));
+        }
         self.next_id = self.next_id.max(id + 1);
+        Ok(())
     }
 
     pub fn gen(&mut self) -> T {
@@ -36,13 +42,15 @@ impl<T: From<usize>> Default for IdGenerator<T> {
 
 impl IdGenerator<usize> {
     /// Returns a new id generators capable of generating new ids for given query.
-    pub fn load(query: RelationalQuery) -> (IdGenerator<CId>, IdGenerator<TId>, RelationalQuery) {
+    pub fn load(
+        query: RelationalQuery,
+    ) -> Result<(IdGenerator<CId>, IdGenerator<TId>, RelationalQuery)> {
         let mut loader = IdLoader {
             cid: IdGenerator::<CId>::default(),
             tid: IdGenerator::<TId>::default(),
         };
-        let query = loader.fold_query(query).unwrap();
-        (loader.cid, loader.tid, query)
+        let query = loader.fold_query(query)?;
+        Ok((loader.cid, loader.tid, query))
     }
 }
 struct IdLoader {
@@ -52,13 +60,13 @@ struct IdLoader {
 
 impl RqFold for IdLoader {
     fn fold_cid(&mut self, cid: CId) -> Result<CId> {
-        self.cid.skip(cid.get());
+        self.cid.skip(cid.get())?;
 
         Ok(cid)
     }
 
     fn fold_table(&mut self, table: TableDecl) -> Result<TableDecl> {
-        self.tid.skip(table.id.get());
+        self.tid.skip(table.id.get())?;
 
         fold_table(self, table)
     }
